@@ -47,6 +47,9 @@ impl Response for f64 {''')]),
                     adapter.flush().await?;''')]),
 ]
 
+# VERIF_ONLY=C03,C05 restricts the run to these checks (results of the others are kept)
+ONLY = [x for x in os.environ.get("VERIF_ONLY", "").split(",") if x]
+
 def sh(cmd, cwd=None, timeout=3600):
     return subprocess.run(cmd, cwd=cwd, shell=True, stdout=subprocess.PIPE, stderr=subprocess.STDOUT, text=True, timeout=timeout)
 
@@ -62,10 +65,12 @@ def run_patches(filt):
             r = sh("git apply %s/patch.diff" % d, cwd=REPO)
             if r.returncode != 0:
                 print(key, "patch does not apply", r.stdout[-200:]); continue
-            r = sh("cargo test --workspace --no-fail-fast --offline 2>&1 | grep -E 'test result' | head -5", cwd=REPO)
-            entry = {"repo_tests": r.stdout.strip().splitlines(), "checks": {}}
+            r = sh("true" if os.environ.get("VERIF_SKIP_TESTS") else "cargo test --workspace --no-fail-fast --offline 2>&1 | grep -E 'test result' | head -5", cwd=REPO)
+            entry = {"repo_tests": r.stdout.strip().splitlines() or results.get(key, {}).get("repo_tests", []), "checks": dict(results.get(key, {}).get("checks", {})) if ONLY else {}}
             for i in range(1, 15):
                 p = "C%02d" % i
+                if ONLY and p not in ONLY:
+                    continue
                 r = sh("./check %s --tier quick" % p, cwd=VERIF)
                 viol = [l for l in r.stdout.splitlines() if l.startswith("VIOLATION")]
                 entry["checks"][p] = {"exit": r.returncode, "alarm": bool(viol)}
@@ -103,10 +108,12 @@ def main():
                 open(path, "w").write(s.replace(old, new, 1))
             if not ok:
                 continue
-            r = sh("cargo test --workspace --no-fail-fast --offline 2>&1 | grep -E 'test result' | head -5", cwd=REPO)
-            entry = {"repo_tests": r.stdout.strip().splitlines(), "checks": {}}
+            r = sh("true" if os.environ.get("VERIF_SKIP_TESTS") else "cargo test --workspace --no-fail-fast --offline 2>&1 | grep -E 'test result' | head -5", cwd=REPO)
+            entry = {"repo_tests": r.stdout.strip().splitlines() or results.get(name, {}).get("repo_tests", []), "checks": dict(results.get(name, {}).get("checks", {})) if ONLY else {}}
             for i in range(1, 15):
                 p = "C%02d" % i
+                if ONLY and p not in ONLY:
+                    continue
                 r = sh("./check %s --tier quick" % p, cwd=VERIF)
                 viol = [l for l in r.stdout.splitlines() if l.startswith("VIOLATION")]
                 entry["checks"][p] = {"exit": r.returncode, "alarm": bool(viol)}
